@@ -9,7 +9,7 @@ S=$(mktemp -d /tmp/verif-mutant.XXXXXX)
 trap 'rm -rf "$S"' EXIT INT TERM
 rsync -a --exclude .git /repo/ "$S/repo/"
 if ! (cd "$S/repo" && patch -p1 -s < "$patch"); then echo "MUTANT $patch: patch does not apply"; exit 3; fi
-VERIF_REPO="$S/repo" "$here/../check" "$prop" "$tier" > "$S/out.txt" 2>&1
+VERIF_REPO="$S/repo" VERIF_EVIDENCE_DIR="$S/evidence" "$here/../check" "$prop" "$tier" > "$S/out.txt" 2>&1
 rc=$?
 if [ $rc -eq 1 ] && grep -q "^VIOLATION property=$prop" "$S/out.txt"; then
   echo "KILLED  $(basename "$patch") by $prop $tier: $(grep -m1 '^--- violation' "$S/out.txt" | cut -c1-220)"
